@@ -226,18 +226,46 @@ def slq_expected(A, probes, P, budget):
     return torch.tensor(out, dtype=torch.float64).reshape(batch)
 
 
+def unwrap_for_probes(op, A, rows, pbatch=None):
+    """Dense tensor of the operator that draws the probes (`rows` = its size) below Block / BatchRepeat wrappers of any nesting, and the
+    function that maps its per-member estimates back to the outer operator's batch (sum over blocks, repeat)."""
+    cls = type(op).__name__
+    if A.shape[-1] == rows and (pbatch is None or pbatch in (tuple(A.shape[:-2]), ()) or cls != "BatchRepeatLinearOperator"):
+        return A, (lambda x: x)       # (a BatchRepeat whose base draws the probes has the same row count: descend while the batch does not fit)
+    if cls in ("BlockDiagLinearOperator", "BlockInterleavedLinearOperator"):
+        base = op.base_linear_op
+        k = base.shape[-3]
+        nb = A.shape[-1] // k
+        if cls == "BlockDiagLinearOperator":
+            Ab = torch.stack([A[..., i * nb:(i + 1) * nb, i * nb:(i + 1) * nb] for i in range(k)], dim=-3)
+        else:
+            Ab = torch.stack([A[..., i::k, i::k] for i in range(k)], dim=-3)
+        An, comb = unwrap_for_probes(base, Ab, rows, pbatch)
+        return An, (lambda x, comb=comb: comb(x).sum(-1))
+    if cls == "BatchRepeatLinearOperator":
+        base = op.base_linear_op
+        bb = tuple(base.batch_shape)
+        idx = (0,) * (A.dim() - 2 - len(bb)) + tuple(slice(0, s) for s in bb)
+        An, comb = unwrap_for_probes(base, A[idx], rows, pbatch)
+        reps = tuple(op.batch_repeat)
+        return An, (lambda x, comb=comb, reps=reps: comb(x).repeat(*reps))
+    return A, (lambda x: x)
+
+
 # ----------------------------------------------------------------------------- path descriptor (input of the Lean shape model)
 
 
 def path_of(op, settings):
     from linear_operator.operators import (BatchRepeatLinearOperator, BlockDiagLinearOperator, BlockInterleavedLinearOperator,
-                                           CholLinearOperator, DiagLinearOperator, IdentityLinearOperator,
+                                           CatLinearOperator, CholLinearOperator, DiagLinearOperator, IdentityLinearOperator,
                                            KroneckerProductAddedDiagLinearOperator, KroneckerProductLinearOperator,
                                            LowRankRootAddedDiagLinearOperator, SumKroneckerLinearOperator, TriangularLinearOperator)
     short = settings.fast_computations.log_prob.off() or op.size(-1) <= settings.max_cholesky_size.value()
     base = "chol" if short else "slq"
     if isinstance(op, CholLinearOperator):
         return "chol"
+    if isinstance(op, CatLinearOperator):
+        return f"cat/{base}"      # super().inv_quad_logdet(...) then .to(device) on the non-None terms
     if isinstance(op, IdentityLinearOperator):
         return "identity"
     if isinstance(op, DiagLinearOperator):
@@ -412,6 +440,41 @@ def extra_instances(rng, dtype, batch, n):
                                                                                (U.mT @ U).repeat(*rep2, 1, 1), [t]))(c(U)), True))
     out.append(Inst("LowRankRootAddedDiag[diag-first]", lambda c, r=Rr, e=dA: (lambda s, t: (LowRankRootAddedDiagLinearOperator(DiagLinearOperator(t), LowRankRootLinearOperator(s)),
                                                                                     r @ r.mT + torch.diag_embed(e), [s, t]))(c(r), c(e)), True))
+    return out
+
+
+# ----------------------------------------------------------------------------- wrappers interleaved (Block / BatchRepeat / Cat)
+
+
+def nest_instances(rng, dtype):
+    """Block OVER BatchRepeat, BatchRepeat over Block, Block over BatchRepeat over Block, Cat (batch concatenation) alone and under a
+    Block — the nestings of theorem `nested_wrappers_shape` that the catalogue's depth-2 instances and one-level wraps do not produce."""
+    from linear_operator.operators import (BatchRepeatLinearOperator, BlockDiagLinearOperator, BlockInterleavedLinearOperator,
+                                           CatLinearOperator, DenseLinearOperator)
+    Inst, psd_int = catalogue.Inst, catalogue.psd_int
+    bd, bi = catalogue.block_diag_dense, catalogue.block_interleaved_dense
+    A = psd_int(rng, (), 3, dtype)               # unbatched 3x3
+    A2 = psd_int(rng, (2,), 3, dtype)            # two 3x3 blocks
+    A4 = psd_int(rng, (2, 2), 2, dtype)          # 2 x 2 blocks of 2x2
+    C1, C2 = psd_int(rng, (1, 2), 3, dtype), psd_int(rng, (1, 2), 3, dtype)
+    S = torch.Size
+    out = [
+        Inst("BlockDiag(BatchRepeat[2](Dense))", lambda c: (lambda t: (BlockDiagLinearOperator(BatchRepeatLinearOperator(DenseLinearOperator(t), batch_repeat=S((2,)))),
+                                                                     bd(A.repeat(2, 1, 1)), [t]))(c(A)), True),
+        Inst("BlockDiag(BatchRepeat[2,3](Dense))", lambda c: (lambda t: (BlockDiagLinearOperator(BatchRepeatLinearOperator(DenseLinearOperator(t), batch_repeat=S((2, 3)))),
+                                                                       bd(A.repeat(2, 3, 1, 1)), [t]))(c(A)), True),
+        Inst("BlockInterleaved(BatchRepeat[3,1](Dense[b=2]))", lambda c: (lambda t: (BlockInterleavedLinearOperator(BatchRepeatLinearOperator(DenseLinearOperator(t), batch_repeat=S((3, 1)))),
+                                                                                   bi(A2.repeat(3, 1, 1, 1)), [t]))(c(A2)), True),
+        Inst("BatchRepeat[2](BlockDiag(Dense[b=2]))", lambda c: (lambda t: (BatchRepeatLinearOperator(BlockDiagLinearOperator(DenseLinearOperator(t)), batch_repeat=S((2,))),
+                                                                          bd(A2).repeat(2, 1, 1), [t]))(c(A2)), True),
+        Inst("BlockDiag(BatchRepeat[2](BlockDiag(Dense[b=2])))", lambda c: (lambda t: (BlockDiagLinearOperator(BatchRepeatLinearOperator(BlockDiagLinearOperator(DenseLinearOperator(t)), batch_repeat=S((2,)))),
+                                                                                     bd(bd(A2).repeat(2, 1, 1)), [t]))(c(A2)), True),
+        Inst("BlockInterleaved(BatchRepeat[2,1](BlockDiag(Dense[b=2,2])))", lambda c: (lambda t: (BlockInterleavedLinearOperator(BatchRepeatLinearOperator(BlockDiagLinearOperator(DenseLinearOperator(t)), batch_repeat=S((2, 1)))),
+                                                                                                bi(bd(A4).repeat(2, 1, 1, 1)), [t]))(c(A4)), True),
+        Inst("Cat[dim=0](Dense,Dense)", lambda c: (lambda s, t: (CatLinearOperator(DenseLinearOperator(s), DenseLinearOperator(t), dim=0), torch.cat([C1, C2], 0), [s, t]))(c(C1), c(C2)), True),
+        Inst("BlockDiag(Cat[dim=0](Dense,Dense))", lambda c: (lambda s, t: (BlockDiagLinearOperator(CatLinearOperator(DenseLinearOperator(s), DenseLinearOperator(t), dim=0)),
+                                                                          bd(torch.cat([C1, C2], 0)), [s, t]))(c(C1), c(C2)), True),
+    ]
     return out
 
 
@@ -657,7 +720,27 @@ def run(chk, only=None):
         "the probes stored on the InvQuadLogdetBackward node are the ones used in the forward pass (they are the same tensor objects)",
         "that the CG-produced tridiagonal matrix is the Lanczos matrix of the preconditioned operator is C08's theorem; here it is checked numerically",
     ]
-    chk.prove("LinOp.Properties.C05", ["LinOp/C05", "LinOp/Core"])
+    # translator: which classes override inv_quad_logdet / inv_quad / logdet / _logdet (ast) -> Generated/C05Overrides.lean,
+    # cross-checked against the run-time class dictionaries
+    from ..extract import c05_overrides
+    import linear_operator.operators as ops_mod
+    try:
+        table, cat_skel = c05_overrides.generate()
+        from linear_operator.operators._linear_operator import LinearOperator as _LO
+        rt = {}
+        for nm in dir(ops_mod):
+            c = getattr(ops_mod, nm)
+            if isinstance(c, type) and issubclass(c, _LO):
+                d = sorted(mn for mn in c05_overrides.WATCH if mn in c.__dict__)
+                if d:
+                    rt[c.__name__] = d
+        exported = {k: v for k, v in table.items() if k in rt or hasattr(ops_mod, k)}
+        if exported != rt:
+            chk.proof_break("translator(C05Overrides)", f"override table differs from run time: ast {sorted(exported.items())} vs run time {sorted(rt.items())}"[:600])
+        chk.count("translator_override_classes", len(table))
+    except Exception as e:  # noqa
+        chk.proof_break("translator(C05Overrides)", f"{type(e).__name__}: {str(e)[:300]}")
+    chk.prove("LinOp.Properties.C05", ["LinOp/C05", "LinOp/Core", "LinOp/Generated/C05Overrides.lean"])
     rec = Recorder()
     st = State(chk, settings, rec, only)
     try:
@@ -683,6 +766,14 @@ class State:
         for it in hetero_instances(rng, torch.float64):
             self.instance(it, torch.float64, tuple(it.shape[:-2]), it.shape[-1], force_cfgs=["slq", "slq[m=1]", "slq[chol=n-1]", "slq+cached-root"]
                           + (["slq+precond"] if "AddedDiag" in it.name else []))
+        self.bcast_cells()
+        self.clamp_cells()
+        if not (self.only and (self.only.startswith("C05/bcast/") or self.only.startswith("C05/clamp/"))):
+            for it in nest_instances(rng, torch.float64):
+                chk.count("nest_instances")
+                self.instance(it, torch.float64, tuple(it.shape[:-2]), it.shape[-1], force_cfgs=["default", "chol=n", "slq", "slq[chol=n-1]"])
+        if self.only and (self.only.startswith("C05/bcast/") or self.only.startswith("C05/clamp/")):
+            return
         self.patched_probe_cells()
         self.history_cells()
         for dtype in dtypes:
@@ -890,6 +981,223 @@ class State:
                         continue
                     chk.traces_validated += 1
 
+    # ------------------------------------------------------------------ batch-broadcast right-hand sides
+    def bcast_cells(self):
+        """`inv_quad_rhs` whose batch shape `rb` differs from the operator's: size-1 broadcast in either direction / both, fewer or
+        more batch dimensions, incompatible sizes, and a 1-D rhs on a batched operator — on the leaf code paths Cholesky shortcut (Dense,
+        Chol), stochastic base class (Dense under max_cholesky_size 0), Diag, Identity; `inv_quad_logdet` with every flag combination and
+        the `inv_quad` entry point.  Spec: the dense value on the broadcast batch (torch.linalg.solve on the expanded tensors), documented
+        shapes `bb (+ [m])` / operator batch for the log-determinant; a rhs with another number of dimensions may raise (documented
+        contract `*batch N M`) but must not return anything else than the broadcast value; incompatible shapes must raise.
+        Model: Lean `shapesB` / `invQuadEntry` / `shapes … vec`, compared exactly (kinds and shapes of both terms, raise = err)."""
+        from linear_operator.operators import (CholLinearOperator, DenseLinearOperator, DiagLinearOperator, IdentityLinearOperator,
+                                               TriangularLinearOperator)
+        chk, settings = self.chk, self.settings
+        dt = torch.float64
+        pairs = [((2,), (1,)), ((1,), (2,)), ((2, 3), (1, 3)), ((2, 3), (2, 1)), ((1, 3), (2, 1)), ((2, 3), (1, 1)), ((2,), (2,)),
+                 ((2,), ()), ((), (2,)), ((2, 3), (3,)), ((2,), (3, 2)), ((2,), (3,)), ((2, 3), (2, 2)), ((2,), "vec")]
+        if chk.tier != "quick":
+            pairs += [((3, 1, 2), (1, 4, 1)), ((2, 1), (3,)), ((1, 1), (2, 3)), ((2, 2), (2,)), ((2, 2), "vec")]
+        fmt = lambda s: "x".join(map(str, s)) or "-"
+
+        def bshape(a, b):
+            try:
+                return tuple(torch.broadcast_shapes(tuple(a), tuple(b)))
+            except RuntimeError:
+                return None
+
+        kinds = [("Dense", "chol", "chol", 800), ("Dense", "slq", "slq", 0), ("Chol", "chol", "default", 800),
+                 ("Diag", "diag", "default", 800), ("Identity", "identity", "default", 800)]
+        for n, m in ((3, 2), (2, 2)):      # n = m = 2 = a batch size: a wrong reduction axis does not raise by accident
+            for batch, rb in pairs:
+                vec = rb == "vec"
+                bb = batch if vec else bshape(batch, rb)
+                samelen = (not vec) and len(rb) == len(batch)
+                if vec:
+                    rel = "vec"
+                elif bb is None:
+                    rel = "clash"
+                elif not samelen:
+                    rel = "shorter" if len(rb) < len(batch) else "longer"
+                else:
+                    rel = "eq" if rb == batch else ("into" if bb == batch else ("outof" if bb == rb else "mixed"))
+                for cls, leaf, cname, mc in kinds:
+                    base = f"C05/bcast/{cls}/{cname}/b={fmt(batch)}/rb={'vec' if vec else fmt(rb)}/rel={rel}/n={n}/m={m}"
+                    if self.only and not self.only.startswith(base):
+                        continue
+                    crng = random.Random(f"C05:{chk.seed}:{base}")
+                    A = catalogue.psd_int(crng, batch, n, dt)
+                    dvals = catalogue.ri(crng, (*batch, n), 1, 5, dt)
+                    if cls in ("Diag", "Identity"):
+                        A = torch.diag_embed(dvals) if cls == "Diag" else torch.eye(n, dtype=dt).expand(*batch, n, n).contiguous()
+                    R = catalogue.ri(crng, (n,) if vec else (*rb, n, m), dtype=dt)
+
+                    def build():
+                        if cls == "Dense":
+                            return DenseLinearOperator(A.clone())
+                        if cls == "Chol":
+                            return CholLinearOperator(TriangularLinearOperator(torch.linalg.cholesky(A)))
+                        if cls == "Diag":
+                            return DiagLinearOperator(dvals.clone())
+                        return IdentityLinearOperator(n, batch_shape=torch.Size(batch), dtype=dt)
+
+                    want_cols = None
+                    if bb is not None:
+                        Ab, Rb = A.expand(*bb, n, n), (R.unsqueeze(-1).expand(*bb, n, 1) if vec else R.expand(*bb, n, m))
+                        want_cols = (Rb * torch.linalg.solve(Ab, Rb)).sum(-2)
+                    tol = 1e-5 if leaf == "slq" else 1e-8
+                    for red, lg in ((True, True), (False, True), (True, False), (False, False)):
+                        cell = base + f"/red={'T' if red else 'F'}/ld={'T' if lg else 'F'}"
+                        if self.only and self.only != cell:
+                            continue
+                        payload = {"cell": cell, "seed": chk.seed, "tier": chk.tier}
+                        chk.case(cell + f"|{chk.seed}")
+                        chk.count("bcast_rel:" + rel)
+                        with ExitStack() as stk:
+                            stk.enter_context(settings.max_cholesky_size(mc))
+                            stk.enter_context(settings.num_trace_samples(3))
+                            stk.enter_context(settings.max_preconditioner_size(0))
+                            stk.enter_context(settings.cg_tolerance(1e-3))
+                            stk.enter_context(settings.max_cg_iterations(200))
+                            torch.manual_seed(crng.randrange(2 ** 31))
+                            try:
+                                iq, ld = build().inv_quad_logdet(R.clone(), logdet=lg, reduce_inv_quad=red)
+                                exc = None
+                            except Exception as e:  # noqa
+                                exc = e
+                            if not lg:
+                                try:
+                                    eq_, eexc = build().inv_quad(R.clone(), reduce_inv_quad=red), None
+                                except Exception as e:  # noqa
+                                    eq_, eexc = None, e
+                        # ---- Lean lines
+                        if vec:
+                            self.lines.append(f"shape {leaf} {'.'.join(map(str, batch)) or '-'} vec {int(lg)} {int(red)}")
+                        else:
+                            self.lines.append(f"shapeb {leaf} {'.'.join(map(str, batch)) or '-'} {'.'.join(map(str, rb)) or '-'} {m} {int(lg)} {int(red)}")
+                        self.expect.append(("shapeb", cell, "err err" if exc is not None else f"{term_desc(iq)} {term_desc(ld)}", None))
+                        # ---- spec
+                        may_raise = vec or not samelen or (leaf == "slq" and lg and rb != batch)
+                        if vec and exc is None:
+                            # a 1-D rhs on a batched operator may raise (base class, logdet=True); if it is accepted the result must be
+                            # the quadratic form of every batch member: shape batch (reduced) / batch (+ [1])
+                            want = want_cols.sum(-1) if red else want_cols
+                            oks = [tuple(want.shape)] + ([tuple(batch)] if not red else [])
+                            if iq is None or tuple(iq.shape) not in oks or not close(iq.detach().reshape(want.shape), want, tol):
+                                chk.violation(cell + "/silent-accept", f"{cls} batch {batch}, 1-D rhs ({n},): inv_quad_logdet returned {term_desc(iq)} "
+                                              f"{None if iq is None else iq.flatten()[:3].tolist()}; per-member quadratic forms {want.flatten()[:3].tolist()} of shape {oks[0]}", payload)
+                            else:
+                                chk.traces_validated += 1
+                        elif bb is None or vec:
+                            if exc is None:
+                                chk.violation(cell + "/silent-accept", f"{cls} batch {batch}, rhs {tuple(R.shape)}: inv_quad_logdet returned {term_desc(iq)} {term_desc(ld)} "
+                                              "for a right-hand side that does not broadcast", payload)
+                            else:
+                                chk.traces_validated += 1
+                        elif exc is not None:
+                            if may_raise:
+                                chk.traces_validated += 1
+                                chk.count("bcast_raises_documented")
+                            else:
+                                chk.violation(cell + "/exception=" + exc_tag(exc), f"{cls} batch {batch}, rhs batch {rb}: raised {type(exc).__name__}: {str(exc)[:140]}", payload)
+                        else:
+                            want = want_cols.sum(-1) if red else want_cols
+                            sfx = "/silent-accept" if not samelen else None
+                            if iq is None or tuple(iq.shape) != tuple(want.shape):
+                                chk.violation(cell + (sfx or "/shape-iq"), f"{cls} batch {batch}, rhs {tuple(R.shape)}: inv_quad term {term_desc(iq)}, "
+                                              f"broadcast value has shape {tuple(want.shape)}", payload)
+                            elif not close(iq.detach(), want, tol):
+                                chk.violation(cell + (sfx or "/invquad"), f"{cls} batch {batch}, rhs {tuple(R.shape)}: inv_quad {iq.flatten()[:4].tolist()} vs "
+                                              f"dense {want.flatten()[:4].tolist()}", payload)
+                            elif lg and (ld is None or tuple(ld.shape) != tuple(batch)):
+                                chk.violation(cell + "/shape-ld", f"{cls} batch {batch}, rhs batch {rb}: logdet term {term_desc(ld)}, documented {batch}", payload)
+                            elif lg and leaf != "slq" and not close(ld.detach(), torch.logdet(A), 1e-8):
+                                chk.violation(cell + "/logdet", f"{cls} batch {batch}, rhs batch {rb}: logdet {ld.flatten()[:3].tolist()} vs {torch.logdet(A).flatten()[:3].tolist()}", payload)
+                            else:
+                                chk.traces_validated += 1
+                        # ---- inv_quad entry point (once per reduce flag)
+                        if not lg and not vec:
+                            ecell = base + f"/red={'T' if red else 'F'}/inv_quad()"
+                            chk.case(ecell + f"|{chk.seed}")
+                            self.lines.append(f"iqshape {'.'.join(map(str, batch)) or '-'} {'.'.join(map(str, rb)) or '-'} {m} {int(red)}")
+                            self.expect.append(("shapeb", ecell, "err" if eexc is not None else term_desc(eq_), None))
+                            if bb is None:
+                                if eexc is None:
+                                    chk.violation(ecell + "/silent-accept", f"{cls}.inv_quad accepted batch {batch} with rhs batch {rb}: {term_desc(eq_)}", payload)
+                                else:
+                                    chk.traces_validated += 1
+                            elif eexc is not None:
+                                chk.violation(ecell + "/exception=" + exc_tag(eexc), f"{cls}.inv_quad batch {batch}, rhs batch {rb}: raised {type(eexc).__name__}: {str(eexc)[:140]}", payload)
+                            else:
+                                want = want_cols.sum(-1) if red else want_cols
+                                if tuple(eq_.shape) != tuple(want.shape):
+                                    chk.violation(ecell + "/shape", f"{cls}.inv_quad batch {batch}, rhs batch {rb}: shape {tuple(eq_.shape)} vs broadcast {tuple(want.shape)}", payload)
+                                elif not close(eq_.detach(), want, tol):
+                                    chk.violation(ecell + "/value", f"{cls}.inv_quad batch {batch}, rhs batch {rb}: {eq_.flatten()[:4].tolist()} vs {want.flatten()[:4].tolist()}", payload)
+                                else:
+                                    chk.traces_validated += 1
+
+    # ------------------------------------------------------------------ the clamp of Kronecker `_logdet`, near and below 1e-7
+    def clamp_cells(self):
+        """`KroneckerProductLinearOperator._logdet` = `evals.clamp(min=1e-7).log().sum(-1)`.  Factors are integer PD matrices times a scale:
+        * `near`  — every product eigenvalue lies in (1e-7, 1e-2): the clamp is inactive, the value must be the exact log-determinant
+          (a threshold raised to 1e-2 … 1e-6 would show); theorem `kronLogdetN_eq`;
+        * `active` — some product eigenvalues are below 1e-7: the value is Σ log(max(λ, 1e-7)) (theorem `kronLogdetN_clamped`): compared with
+          that formula on independent float64 eigenvalues of the factors, and it must be strictly above the exact log-determinant.
+        Both are compared with the Lean `kronLogdetN` (Float instance, clamp 1e-7) on the eigenvalues `_symeig` returned (1e-9)."""
+        from linear_operator.operators import DenseLinearOperator, KroneckerProductLinearOperator
+        chk = self.chk
+        dt = torch.float64
+        for kind, scales in (("near", (1e-2, 1e-2)), ("near3", (1e-1, 1e-2, 1e-1)), ("active", (1e-4, 1e-4)), ("active3", (1e-3, 1e-3, 1e-3))):
+            for batch in ((), (2,)):
+                base = f"C05/clamp/Kronecker[{len(scales)}]/{kind}/b={'x'.join(map(str, batch)) or '-'}"
+                if self.only and not self.only.startswith(base):
+                    continue
+                crng = random.Random(f"C05:{chk.seed}:{base}")
+                sizes = [2, 3, 2][:len(scales)]
+                facs = [catalogue.psd_int(crng, batch, k, dt) * s for k, s in zip(sizes, scales)]
+                evs = [torch.linalg.eigvalsh(f) for f in facs]
+                prod = evs[0]
+                for e in evs[1:]:
+                    prod = (prod.unsqueeze(-1) * e.unsqueeze(-2)).reshape(*batch, -1)
+                exact = prod.log().sum(-1)
+                clamped = prod.clamp(min=1e-7).log().sum(-1)
+                is_active = bool((prod < 1e-7).any())
+                if is_active != kind.startswith("active") or bool(((prod - 1e-7).abs() < 1e-9).any()):
+                    continue   # the generated instance is not of the advertised kind (not reached with these scales)
+                for entry in ("_logdet", "logdet()", "inv_quad_logdet"):
+                    cell = base + "/" + entry
+                    if self.only and self.only != cell:
+                        continue
+                    payload = {"cell": cell, "seed": chk.seed, "tier": chk.tier}
+                    chk.case(cell + f"|{chk.seed}")
+                    chk.count("clamp:" + kind)
+                    op = KroneckerProductLinearOperator(*[DenseLinearOperator(f.clone()) for f in facs])
+                    try:
+                        got = {"_logdet": lambda: op._logdet(), "logdet()": lambda: op.logdet(),
+                               "inv_quad_logdet": lambda: op.inv_quad_logdet(None, logdet=True)[1]}[entry]()
+                    except Exception as e:  # noqa
+                        chk.violation(cell + "/exception=" + exc_tag(e), f"raised {type(e).__name__}: {str(e)[:140]}", payload)
+                        continue
+                    want = clamped if is_active else exact
+                    if tuple(got.shape) != tuple(batch):
+                        chk.violation(cell + "/shape", f"shape {tuple(got.shape)} vs {batch}", payload)
+                    elif not close(got.detach(), want, 1e-8):
+                        chk.violation(cell + "/logdet", f"Kronecker {entry} {got.flatten()[:3].tolist()} vs {'clamped spectrum' if is_active else 'exact'} "
+                                      f"{want.flatten()[:3].tolist()} (smallest product eigenvalue {float(prod.min()):.3g})", payload)
+                    elif is_active and not bool((got.detach() > exact + 1e-6)[(prod < 1e-7).any(-1)].all()):   # every member whose clamp is active
+                        chk.violation(cell + "/clamp-not-above", f"clamped value {got.flatten()[:3].tolist()} is not above the exact log-determinant {exact.flatten()[:3].tolist()}", payload)
+                    else:
+                        chk.traces_validated += 1
+                    if entry == "_logdet":
+                        try:
+                            first = lambda t: members(t.detach().double(), len(batch))[0]
+                            ievs = [first(lt._symeig(eigenvectors=True)[0]) for lt in op.linear_ops]
+                            self.lines.append("kronlogdet " + ";".join(",".join(fmt_rat(float(x)) for x in v.tolist()) for v in ievs))
+                            self.expect.append(("float", cell + "/kronN", float(first(got)) if batch else float(got), 1e-9))
+                        except Exception as e:  # noqa
+                            chk.corr_break(cell + "/kron-model/exception", f"{type(e).__name__}: {str(e)[:160]}", payload)
+
     # ------------------------------------------------------------------ one case
     def one(self, cell, it, orc, dtype, batch, N, cname, cfg, rk, R, red, lg):
         chk, settings = self.chk, self.settings
@@ -1081,23 +1389,13 @@ class State:
         A_node, combine = orc.A, (lambda x: x)
         cls = type(op).__name__
         if tuple(pv.shape[-2:]) != (N, m) and cls in ("BlockDiagLinearOperator", "BlockInterleavedLinearOperator", "BatchRepeatLinearOperator"):
-            if cls == "BatchRepeatLinearOperator":
-                reps = tuple(op.batch_repeat)
-                A_node = orc.A[(0,) * (orc.A.dim() - 2 - len(tuple(op.base_linear_op.batch_shape)))]
-                combine = lambda x: x.repeat(*reps)
-            else:
-                k = op.base_linear_op.shape[-3]
-                nb = N // k
-                if cls == "BlockDiagLinearOperator":
-                    A_node = torch.stack([orc.A[..., i * nb:(i + 1) * nb, i * nb:(i + 1) * nb] for i in range(k)], dim=-3)
-                else:
-                    A_node = torch.stack([orc.A[..., i::k, i::k] for i in range(k)], dim=-3)
-                combine = lambda x: x.sum(-1)
+            # the probes belong to the operator that finally takes the stochastic path: descend through Block / BatchRepeat wrappers
+            # (any nesting) until the row count fits; the estimate is summed over blocks / repeated on the way back up
+            A_node, combine = unwrap_for_probes(op, orc.A, pv.shape[-2], tuple(pv.shape[:-2]))
             Nn = A_node.shape[-1]
             if tuple(pv.shape[-2:]) != (Nn, m) or tuple(pv.shape[:-2]) not in (tuple(A_node.shape[:-2]), ()):
                 chk.violation(cell + "/probes", f"probes shape {tuple(pv.shape)} does not fit the wrapped operator {tuple(A_node.shape)} with m={m}", payload)
                 return
-            budget = budget if budget >= N else budget  # the budget applies to the wrapped operator's size
         elif tuple(pv.shape[-2:]) != (N, m):
             chk.violation(cell + "/probes", f"probes shape {tuple(pv.shape)} (expected (...,{N},{m}))", payload)
             return
@@ -1166,6 +1464,14 @@ class State:
             return
         for o, (kind, cell, want, tol) in zip(outs, self.expect):
             pl = {"cell": cell, "seed": chk.seed, "tier": chk.tier}
+            if kind == "shapeb":
+                # exact: kinds and shapes of both terms; a raise is `err` (the model's `err err` = the call raises)
+                if o == want or (o.startswith("err") and want.startswith("err")):
+                    chk.traces_validated += 1
+                    chk.count("bcast_model_agree")
+                else:
+                    chk.corr_break(cell + "/shape-model", f"Lean broadcast shape model says '{o}', implementation returned '{want}'", pl)
+                continue
             if kind == "shape":
                 if o == want or (isinstance(tol, tuple) and same_terms(o, want, tol[1], tol[2])):
                     chk.traces_validated += 1
@@ -1247,4 +1553,10 @@ def replay(chk, payload):
         return run(chk)
     chk.rng = random.Random(f"C05:{p.get('seed', 0)}")
     chk.tier = p.get("tier", chk.tier)
+    if cell.startswith("C05/clamp/"):
+        return run(chk, only="/".join(cell.split("/")[:6]))
+    if cell.startswith("C05/bcast/"):
+        parts = cell.split("/")
+        return run(chk, only="/".join(parts[:9] + (["red=T", "ld=F"] if parts[10:11] == ["inv_quad()"] and parts[9] == "red=T"
+                                                     else ["red=F", "ld=F"] if parts[10:11] == ["inv_quad()"] else parts[9:11])))
     run(chk, only="/".join(cell.split("/")[:6]))
